@@ -156,10 +156,15 @@ AllowedIn(R, S, v) ==
       kMaxP == IF obj /\ Has(S, "maxProperties") THEN T(Len(v.v) <= S.maxProperties) ELSE any
       props == IF Has(S, "properties") THEN S.properties ELSE <<>>
       pats  == IF Has(S, "patternProperties") THEN S.patternProperties ELSE <<>>
+      PropSchema(name) ==     \* the property's schema, looking through one "$ref"
+          LET ps == PairsGet(props, name) IN
+          IF ~IsBoolSchema(ps) /\ Has(ps, "ref") /\ Has(R, "definitions")
+             /\ PairsHasKey(R.definitions, ps.ref)
+          THEN PairsGet(R.definitions, ps.ref) ELSE ps
       Waived(name) ==     \* D3
           /\ PairsHasKey(props, name)
-          /\ ~IsBoolSchema(PairsGet(props, name))
-          /\ Has(PairsGet(props, name), "default")
+          /\ ~IsBoolSchema(PropSchema(name))
+          /\ Has(PropSchema(name), "default")
       kReq  == IF obj /\ Has(S, "required")
                THEN ConjSets([i \in 1..Len(S.required) |->
                       IF HasKey(v, S.required[i]) THEN any
